@@ -515,7 +515,7 @@ def part_state(ctx: fw.Ctx) -> None:
     r = ctx.rng
     pg, ex = K.progression, K.execution
     n = ctx.scale(700, 5000)
-    cases: dict[str, list[fw.Case]] = {'with_outcome': [], 'predicates': [], 'storage': [], 'state': []}
+    cases: dict[str, list[fw.Case]] = {'with_outcome': [], 'predicates': [], 'with_purpose': [], 'storage': [], 'state': []}
     loop = vloop.new_loop(0.0)
 
     def gen_hs(now: int) -> dict:
@@ -566,6 +566,18 @@ def part_state(ctx: fw.Ctx) -> None:
                              sig='retry-too-soon' if (s2['delayed'] or now) < now + delay else 'wrong-delay')
                 if s2['failure'] != (final and exc is not None) or s2['success'] != (final and exc is None):
                     ctx.fail('final outcome not recorded as success/failure', {'outcome': [final, delay, xk], 'result': s2}, sig='verdict')
+                # with_purpose (one cause supersedes another while the handler may be sleeping): nothing but the purpose changes
+                purpose = r.choice(['create', 'update', 'delete', 'resume', None])
+                s3 = hs_fields(hs.with_purpose(purpose))
+                group_p = pg.State({'h': hs, 'other': real(gen_hs(now), now)}, basetime=clock.at(sec(now)))
+                s4 = hs_fields(group_p.with_purpose(purpose, handlers=[ex.Handler(id='h', fn=None, param=None, errors=None, timeout=None,
+                                                                                  retries=None, backoff=None)])['h'])
+                cases['with_purpose'].append(fw.Case(
+                    f'hstate_eqb (with_purpose {c_hstate(s)}) {c_hstate(s3)} && hstate_eqb (with_purpose {c_hstate(s)}) {c_hstate(s4)}',
+                    {'state': s, 'purpose': purpose, 'HandlerState.with_purpose': s3, 'State.with_purpose(handlers)': s4},
+                    diag=f'with_purpose {c_hstate(s)}'))
+                ctx.count('with_purpose', ('sleeping' if got[1] else 'finished' if got[0] else 'awake') + ' -> ' + str(purpose))
+                # (a difference here is reported by the tie; the failing HISTORY comes from part_supersession's call log)
                 # storage: for_storage, from_storage (also of partial records), round trip
                 stored = hs.for_storage()
                 rf = rec_fields(stored)
@@ -830,7 +842,8 @@ class CycleHang(Exception):
     pass
 
 
-def one_cycle(reg: Any, settings: Any, raw: dict, wall: int, origin: int, lifecycle: Any = None) -> tuple[list, dict, int]:
+def one_cycle(reg: Any, settings: Any, raw: dict, wall: int, origin: int, lifecycle: Any = None,
+              reason: Any = None, initial: bool = False) -> tuple[list, dict, int]:
     """One processing cycle at wall-clock `wall` ms in a process whose loop clock reads wall - origin."""
     from kv import canon
     clock.set_offset(sec(origin))
@@ -839,7 +852,7 @@ def one_cycle(reg: Any, settings: Any, raw: dict, wall: int, origin: int, lifecy
             body = K.bodies.Body(raw)
             patch = K.patches.Patch({}, body=body)
             cause = K.causes.ChangingCause(resource=K.RES, indices={}, logger=K.logger, memo=K.ephemera.Memo(), body=body, patch=patch,
-                                           initial=False, reason=K.causes.Reason.CREATE, old=None, new={'spec': dict(raw.get('spec', {}))})
+                                           initial=initial, reason=reason or K.causes.Reason.CREATE, old=None, new={'spec': dict(raw.get('spec', {}))})
             delays = await K.processing.process_changing_cause(lifecycle=lifecycle or K.lifecycles.asap, registry=reg, settings=settings,
                                                                memory=K.inventory.ResourceMemory(), cause=cause)
             return [to_ms(float(x)) for x in delays], dict(patch)
@@ -1188,6 +1201,7 @@ def run_parts(ctx: fw.Ctx) -> None:
     part_cycles(ctx)
     c11_loop.part_apply(ctx)
     c11_loop.part_closed(ctx)
+    c11_loop.part_supersession(ctx)
     part_subhandlers(ctx)
     part_multi_activity(ctx)
 
